@@ -4,7 +4,8 @@
    EVERY state — in particular over every state reached by any preceding history [run empty_st hist]. *)
 From Coq Require Import ZArith List String Bool Arith.
 Import ListNotations.
-From TD Require Import Model.C07_Heap Model.C07_Alias Spec.C07_AliasSpec Proofs.C07_HeapP Proofs.C07_AliasP.
+From TD Require Import Model.C07_Heap Model.C07_Alias Spec.C07_AliasSpec Proofs.C07_HeapP Proofs.C07_AliasP
+  Proofs.C07_TreeP Proofs.C07_WfP.
 Local Open Scope list_scope.
 
 (* inplace_keeps: an operation documented as in-place (update_, copy_, set_at_, update_at_, copy_at_, td[idx] = v, masked_fill_,
@@ -74,6 +75,108 @@ Theorem C07_after_any_history : forall hist i,
    inplace_frame (hp s) (hp (fst (step s i))) /\ regs (fst (step s i)) = regs s).
 Proof. intros hist i s. split; [apply step_pure|apply step_inplace_frame]. Qed.
 Print Assumptions C07_after_any_history.
+
+(* only cells of the receiver's own storages are updated: for the whole-tree in-place operations (update_/copy_, td[idx] = scalar /
+   masked_fill_, zero_, unary and binary underscore arithmetic) every storage that is not behind one of the receiver's entries
+   keeps its whole content *)
+Theorem C07_inplace_footprint : forall s i r d ls,
+  whole_tree_inplace i = Some r -> reg s r = Some d -> leaves_of (hp s) d = Some ls ->
+  only_storages (leaf_sids ls) (hp s) (hp (fst (step s i))).
+Proof. exact step_inplace_footprint. Qed.
+Print Assumptions C07_inplace_footprint.
+
+(* every state reached by any history is well formed (no dangling node reference): the hypothesis of the per-key theorems *)
+Theorem C07_wf_history : forall hist, wfst (run empty_st hist).
+Proof. exact reachable_wf. Qed.
+Print Assumptions C07_wf_history.
+
+(* view_shares: basic indexing, view, permute, transpose, squeeze, unsqueeze, expand, unbind / split / chunk pieces: no storage is
+   allocated or written, and at EVERY nested key the result's entry is a view (same storage id, cells included in those) of the
+   source's entry at the same key — the sub-view selected by the batch positions; the result has no key the source lacks *)
+Theorem C07_view_shares : forall hist r nb bsel pl d s',
+  let s := run empty_st hist in
+  reg s r = Some d -> step s (IViewB r nb bsel pl) = (s', Done) ->
+  hstor (hp s') = hstor (hp s) /\
+  exists x, result_of s s' x /\
+    forall p, match resolve (hp s') x p with
+              | Some (RLeaf v') => exists v, resolve (hp s) d p = Some (RLeaf v) /\ v' = subview v nb bsel /\ view_of v v'
+              | Some (RNode _) => exists m, resolve (hp s) d p = Some (RNode m)
+              | None => True
+              end.
+Proof.
+  intros hist r nb bsel pl d s' s Hr H. pose proof (reachable_wf hist) as W.
+  eapply view_shares; [apply W|exact Hr|eapply reg_wf; [exact W|exact Hr]|exact H].
+Qed.
+Print Assumptions C07_view_shares.
+
+(* shallow copy (copy(), clone(False)): new nodes, the very same tensors *)
+Theorem C07_shallow_shares : forall hist r d s',
+  let s := run empty_st hist in
+  reg s r = Some d -> step s (IShallow r) = (s', Done) ->
+  hstor (hp s') = hstor (hp s) /\
+  exists x, result_of s s' x /\
+    forall p v', resolve (hp s') x p = Some (RLeaf v') -> resolve (hp s) d p = Some (RLeaf v').
+Proof.
+  intros hist r d s' s Hr H. pose proof (reachable_wf hist) as W.
+  eapply shallow_shares; [apply W|exact Hr|eapply reg_wf; [exact W|exact Hr]|exact H].
+Qed.
+Print Assumptions C07_shallow_shares.
+
+(* select / exclude / flatten_keys: one new node binding (a subset of) the source's keys to the very same entries *)
+Theorem C07_select_shares : forall s r ks n nd s',
+  reg s r = Some (RNode n) -> get_node (hp s) n = Some nd -> step s (ISelect r ks) = (s', Done) ->
+  hstor (hp s') = hstor (hp s) /\
+  exists m ndm, result_of s s' (RNode m) /\ get_node (hp s') m = Some ndm /\
+                forall k x, In (k, x) (nents ndm) -> ents_get (nents nd) k = Some x.
+Proof. exact select_shares. Qed.
+Print Assumptions C07_select_shares.
+
+Theorem C07_exclude_shares : forall s r ks n nd s',
+  reg s r = Some (RNode n) -> get_node (hp s) n = Some nd -> step s (IExclude r ks) = (s', Done) ->
+  hstor (hp s') = hstor (hp s) /\
+  exists m ndm, result_of s s' (RNode m) /\ get_node (hp s') m = Some ndm /\
+                forall k x, In (k, x) (nents ndm) -> In (k, x) (nents nd).
+Proof. exact exclude_shares. Qed.
+Print Assumptions C07_exclude_shares.
+
+Theorem C07_flatten_keys_shares : forall s r sep d ls s',
+  reg s r = Some d -> leaves_of (hp s) d = Some ls -> step s (IFlatten r sep) = (s', Done) ->
+  hstor (hp s') = hstor (hp s) /\
+  exists m ndm, result_of s s' (RNode m) /\ get_node (hp s') m = Some ndm /\
+                nents ndm = map (fun pv => (join sep (fst pv), RLeaf (snd pv))) ls.
+Proof. exact flatten_shares. Qed.
+Print Assumptions C07_flatten_keys_shares.
+
+(* copy_fresh: clone / to_tensordict, advanced indexing / masked_select, out-of-place arithmetic: at every nested key of the result
+   the entry lives in a storage id that did not exist before (so it is disjoint from every tensor anybody holds), at a key where
+   the source has an entry *)
+Theorem C07_copy_fresh : forall hist i r d s',
+  let s := run empty_st hist in
+  (i = IClone r \/ (exists nb bsel, i = IGather r nb bsel) \/ (exists f pl, i = IUnary r f pl false)) ->
+  reg s r = Some d -> step s i = (s', Done) -> fresh_result s d s'.
+Proof.
+  intros hist i r d s' s Hi Hr H. pose proof (reachable_wf hist) as W.
+  assert (Wd : wfref (hp s) d) by (eapply reg_wf; [exact W|exact Hr]).
+  destruct Hi as [E|[[nb [bsel E]]|[f [pl E]]]]; subst i.
+  - eapply clone_fresh; [apply W|exact Hr|exact Wd|exact H].
+  - eapply gather_fresh; [apply W|exact Hr|exact Wd|exact H].
+  - eapply unary_fresh; [apply W|exact Hr|exact Wd|exact H].
+Qed.
+Print Assumptions C07_copy_fresh.
+
+(* contiguous(): what torch does on the leaf — an already contiguous entry is returned as it is (legitimate sharing), any other
+   entry becomes a tensor in a fresh storage *)
+Theorem C07_contiguous_rule : forall hist r d s',
+  let s := run empty_st hist in
+  reg s r = Some d -> step s (IContig r) = (s', Done) ->
+  exists x, result_of s s' x /\
+    forall p v', resolve (hp s') x p = Some (RLeaf v') ->
+      exists v, resolve (hp s) d p = Some (RLeaf v) /\ (if contiguousb v then v' = v else fresh_view (hp s) v').
+Proof.
+  intros hist r d s' s Hr H. pose proof (reachable_wf hist) as W.
+  eapply contiguous_rule; [apply W|exact Hr|eapply reg_wf; [exact W|exact Hr]|exact H].
+Qed.
+Print Assumptions C07_contiguous_rule.
 
 (* the classification table of the model (compared with the documentation-derived table on every run) *)
 Example C07_classes :
